@@ -264,7 +264,7 @@ def obligations(tier):
                 continue                        # no valid signature of length n starts with these classes
             if tier == 'quick' and n == 6 and 'o' in pre:
                 continue                        # quick: length 6 only for container-heavy prefixes (aa, a(, a{, (a, (()
-            to = 120 if n <= 4 else (400 if n == 5 else 900)
+            to = 120 if n <= 4 else (400 if n == 5 else (900 if n == 6 else 3000))
             obs.append(Ob('split:len%d:%s' % (n, ''.join(pre)), 'split', {'n': n, 'pre': list(pre)},
                           timeout=to, path_timeout=30, twin=(n <= 5), functions=FUNCS[:1] + FUNCS[4:],
                           bounds='signature: symbolic string of length %d (first %d characters by class)' % (n, len(pre))))
